@@ -255,7 +255,7 @@ TEXTS = ['x', 'a"b\\c', 'l1\nl2', '']
 BLOCK_COMMENTS = ['c', 'c\nd']
 INLINE_COMMENTS = ['c', '']
 DECIMALS = ['1', '-1.5', '0']
-DATES = ['2000-01-01', '2012-12-31']
+DATES = ['2000-01-01', '2012-12-31', '0999-01-02']      # a year below 1000 needs zero padding
 
 
 def _amount(n: str = '1', cur: str = 'USD') -> list:
@@ -303,7 +303,7 @@ META_ITEMS = [
 ]
 
 META_VALUES = [           # MetaItem.from_value / Pushmeta.from_value `value`
-    None, S('x'), S('a"b\\c'), S('l1\nl2'), DT('2000-01-01'), N('1'), N('-1.5'), B(True), B(False), _ACCOUNT_M,
+    None, S('x'), S('a"b\\c'), S('l1\nl2'), DT('2000-01-01'), DT('0999-01-02'), N('1'), N('-1.5'), B(True), B(False), _ACCOUNT_M,
     C('Currency', 'from_value', S('USD')), C('Tag', 'from_value', S('t')), C('Null', 'from_default'),
     C('Bool', 'from_value', B(True)), C('Date', 'from_value', DT('2012-12-31')),
     C('EscapedString', 'from_value', S('a"b\\c')), PARSE('NumberExpr', '1 + 2 * (3)'), _amount('-1.5'),
